@@ -68,8 +68,22 @@ def run(ctx):
             ctx.check(removed, 'C15.2', 'close_connection:forgets-address', f_close.loc(), 'a known address is forgotten, so a later connection at the same address is new',
                       'close_connection keeps the address registered on path %s' % p.describe()[:100])
     ctx.floor('C15.2', ncl, 1, 'normal paths of Plugin.close_connection')
+    def _keeps_the_connection(w):
+        # a store in process_message that writes back, under the same key, the very connection the entry holds (only what is remembered
+        # next to it - the thread - changes): the table's key -> connection relation is untouched
+        if w.kind != 'substore':
+            return False
+        hits = []
+        for p_ in paths_of(repo, f_pm):
+            for e_ in p_.events:
+                if e_.kind == 'store' and e_.node is not None and (e_.node is w.stmt or getattr(e_.node, '_parent', None) is w.stmt or e_.node is getattr(w, 'node', None)):
+                    v_ = e_.value
+                    key_ = (e_.target or '')[len('self.connections['):-1]
+                    hits.append(isinstance(v_, ast.Tuple) and len(v_.elts) == 2 and norm(v_.elts[1]) == 'self.connections[%s][1]' % key_)
+        return bool(hits) and all(hits)
     check_writers(ctx, 'C15.2', PL, 'connections', [('Plugin.__init__', lambda w: w.fresh), ('Plugin.open_connection', lambda w: w.kind == 'substore'),
-                                                    ('Plugin.close_connection', lambda w: w.kind == 'subdel' or (w.kind == 'mutate' and w.via == 'pop'))], floor=3)
+                                                    ('Plugin.close_connection', lambda w: w.kind == 'subdel' or (w.kind == 'mutate' and w.via == 'pop')),
+                                                    ('Plugin.process_message', _keeps_the_connection)], floor=3)
     f_id = repo.func('extract.connection_id_of')
     from ..peval import fold, Unfoldable
     cp = f_id.params()[0]
